@@ -112,6 +112,55 @@ Theorem C06_delete_order_free : forall k snap t r,
 Proof. exact untag_fold_order_free. Qed.
 Print Assumptions C06_delete_order_free.
 
+(* ---- file store (names, duplicate-name, fallback CAS; options IgnoreNoName, DisableOverwrite) ---- *)
+
+(* whatever the history and the options, a Fetch never returns bytes whose hash is not
+   the requested digest (digestToPath -> file indirection included) *)
+Theorem C06_fetch_matches_digest_file : forall ig ov h d hash len,
+  let s := fst (runf (file_step true ig ov) file_init h) in
+  snd (file_step true ig ov s (Fetch d)) = FO (OBytes hash len) -> hash = d_dig d.
+Proof. exact file_fetch_matches. Qed.
+Print Assumptions C06_fetch_matches_digest_file.
+
+(* repaired code: a refused or failed operation leaves the whole state (names,
+   digestToPath, files, fallback, tags, graph) unchanged, after any history *)
+Theorem C06_failed_noop_file : forall ig ov h o,
+  let s := fst (runf (file_step true ig ov) file_init h) in
+  fout_is_err (snd (file_step true ig ov s o)) = true -> fst (file_step true ig ov s o) = s.
+Proof. exact file_failed_noop. Qed.
+Print Assumptions C06_failed_noop_file.
+
+(* code as found (fixed = false): refuted -- the witness is the finding failed-push-left-file *)
+Theorem C06_failed_noop_file_prefix_refuted :
+  snd (runf (file_step false false true) file_init [Push w_named w_bad; Push w_named w_good])
+    = [FO (OErr EMismatch); FE FOverwrite] /\
+  snd (runf (file_step false false true) file_init [Push w_named w_good]) = [FO OOk] /\
+  snd (runf (file_step true false true) file_init [Push w_named w_bad; Push w_named w_good])
+    = [FO (OErr EMismatch); FO OOk].
+Proof. exact file_failed_noop_prefix_witness. Qed.
+Print Assumptions C06_failed_noop_file_prefix_refuted.
+
+(* a name is written once *)
+Theorem C06_duplicate_name_file : forall fx ig ov s d c,
+  d_name d <> 0 -> In (d_name d) (f_names s) ->
+  file_step fx ig ov s (Push d c) = (s, FE FDuplicateName).
+Proof. exact file_duplicate_name. Qed.
+Print Assumptions C06_duplicate_name_file.
+
+(* known findings, as witnesses on the model of the current code *)
+Theorem C06_push_present_refused_file_refuted :
+  let s := fst (runf (file_step true false false) file_init [Push w_named w_good]) in
+  file_exists w_unnamed s = true /\
+  snd (file_step true false false s (Push w_unnamed w_good)) = FO OOk.
+Proof. exact file_push_present_witness. Qed.
+Print Assumptions C06_push_present_refused_file_refuted.
+
+Theorem C06_fetch_returns_pushed_file_refuted :
+  snd (runf (file_step true false false) file_init [Push w_unnamed w_trailing; Fetch w_unnamed])
+    = [FO OOk; FO (OBytes 1 5)] /\ b_len w_trailing = 6.
+Proof. exact file_trailing_witness. Qed.
+Print Assumptions C06_fetch_returns_pushed_file_refuted.
+
 (* ---- the hypotheses are satisfiable: a concrete universe and history ---- *)
 Definition ex_U (g : N) : gkey :=
   if g =? 1 then (1, 1, 10) else if g =? 2 then (6, 2, 5) else (0, g, 0).
